@@ -244,4 +244,73 @@ pub fn run(ctx: &mut Ctx) {
     }
     let _ = server;
     rt.shutdown_timeout(Duration::from_millis(300));
+    reverse_proxy_sessions(ctx);
+}
+
+/// the session timer of a reverse-proxy connection: an HTTP/3 session on the reverse-proxy host whose streams have all
+/// ended - completed, or failed because the origin refused - and that opens no new one is closed by the endpoint after
+/// the session timeout E (`connection_establishment_timeout`), releasing the QUIC connection and its task
+fn reverse_proxy_sessions(ctx: &mut Ctx) {
+    use crate::c02h3::LiveEndpoint;
+    use crate::h3cli::H3Client;
+    const FIX: &str = concat!(env!("CARGO_MANIFEST_DIR"), "/fixtures/");
+    const E_MS: u64 = 700;
+    let good_l = TcpListener::bind("127.0.0.1:0").unwrap();
+    let good = good_l.local_addr().unwrap();
+    std::thread::spawn(move || {
+        for s in good_l.incoming() {
+            let Ok(mut s) = s else { continue };
+            let _ = s.set_read_timeout(Some(Duration::from_secs(1)));
+            let mut buf = [0u8; 2048];
+            let _ = s.read(&mut buf);
+            let _ = s.write_all(b"HTTP/1.1 200 OK\r\ncontent-length: 2\r\nconnection: close\r\n\r\nok");
+        }
+    });
+    let dead: SocketAddr = TcpListener::bind("127.0.0.1:0").unwrap().local_addr().unwrap();
+    for (origin, what) in [(good, "completes"), (dead, "fails (the origin refuses the connection)")] {
+        let Some(ep) = LiveEndpoint::start(move |addr| {
+            let settings = Settings::builder()
+                .listen_address(addr)
+                .unwrap()
+                .listen_protocols(ListenProtocolSettings {
+                    http1: Some(Http1Settings::builder().build()),
+                    http2: Some(Http2Settings::builder().build()),
+                    quic: Some(QuicSettings::builder().build()),
+                })
+                .connection_establishment_timeout(Duration::from_millis(E_MS))
+                .client_listener_timeout(Duration::from_secs(60))
+                .reverse_proxy(ReverseProxySettings::builder().server_address(origin).unwrap().path_mask("/rp".to_string()).build().unwrap())
+                .build()
+                .unwrap();
+            let h = |n: &str, f: &str| TlsHostInfo { hostname: n.into(), cert_chain_path: format!("{}{}", FIX, f), private_key_path: format!("{}{}", FIX, f), allowed_sni: vec![] };
+            let hosts = TlsHostsSettings::builder()
+                .main_hosts(vec![h("main.verif.test", "c05_main.pem")])
+                .reverse_proxy_hosts(vec![h("rproxy.verif.test", "c05_rproxy.pem")])
+                .build()
+                .unwrap();
+            Core::new(settings, None, hosts, Shutdown::new()).unwrap()
+        }) else {
+            ctx.notes.push("c14live: the reverse-proxy endpoint did not come up; skipped".to_string());
+            return;
+        };
+        ctx.stat("reverse_proxy_h3_sessions");
+        let desc = format!("HTTP/3 session on the reverse-proxy host (session timeout {} ms) whose only stream {}", E_MS, what);
+        let Ok(mut cl) = H3Client::connect(ep.addr, Some("rproxy.verif.test"), &[b"h3"], 1 << 20, Duration::from_secs(3)) else {
+            ctx.oracle_failure("quic_handshake_failed", &desc);
+            continue;
+        };
+        let id = cl.request("GET", Some("https"), "rproxy.verif.test", Some("/x"), &[], true);
+        cl.wait(Duration::from_secs(2), |c| id.and_then(|i| c.streams.get(&i)).map(|s| s.finished || s.reset.is_some()).unwrap_or(false));
+        let t_end = Instant::now();
+        // no new stream: the endpoint must close the connection around E after the last stream ended
+        let closed = cl.wait(Duration::from_millis(E_MS + 4000), |c| c.conn.is_closed() || c.conn.is_draining() || c.conn.peer_error().is_some());
+        let after = t_end.elapsed();
+        ctx.notes.push(format!("observed: reverse-proxy session whose stream {}: closed by the endpoint: {} after {} ms", what, closed, after.as_millis()));
+        if !closed {
+            ctx.oracle_failure(
+                "session_not_released",
+                &format!("{}: {} ms after the stream had ended and with no stream open the endpoint still kept the QUIC connection (its session task and socket are not released)", desc, after.as_millis()),
+            );
+        }
+    }
 }
